@@ -116,3 +116,123 @@ def _(rng):
     vm = np.array([0, 0, 2, 4, 6, 1, 64, 128], dtype=np.uint16)[rng.integers(0, 8, size=(h, w))]
     return {"cv": xr.Dataset({"cost_volume": (["row", "col", "disp"], cost), "validity_mask": (["row", "col"], vm)},
                              coords={"row": np.arange(h), "col": np.arange(w), "disp": np.arange(n)})}
+
+
+# ------------------------------------------------------------------------------------------- right-image mask (bits 7 and 1)
+@spec
+def masked_px(msk, nd, vp, y, c) -> "int":
+    # 1 when the right pixel is invalidated by the input mask (neither no-data nor valid), else 0
+    return 1 if (msk[y, c] != nd and msk[y, c] != vp) else 0
+
+
+@spec
+def cnt_masked(msk, nd, vp, y, c0, k, lo, hi) -> "int":
+    # over the k candidate columns c0 .. c0+k-1: a candidate outside [lo, hi] counts 1, inside it counts masked_px
+    return 0 if k <= 0 else cnt_masked(msk, nd, vp, y, c0, k - 1, lo, hi) + (
+        masked_px(msk, nd, vp, y, c0 + k - 1) if lo <= c0 + k - 1 and c0 + k - 1 <= hi else 1)
+
+
+@spec
+def cnt_nodata(dil, y, c0, k, lo, hi) -> "int":
+    return 0 if k <= 0 else cnt_nodata(dil, y, c0, k - 1, lo, hi) + (
+        (1 if dil[y, c0 + k - 1] else 0) if lo <= c0 + k - 1 and c0 + k - 1 <= hi else 1)
+
+
+@lemma("cnt_masked_full", props=["C04"])
+def _(msk, nd, vp, y, c0, k, lo, hi):
+    # the counter reaches k exactly when every in-image candidate is masked
+    types(msk="i16[:,:]", nd="int", vp="int", y="int", c0="int", k="int", lo="int", hi="int")
+    requires(k >= 0)
+    induction("k", 0)
+    option(fuel=["cnt_masked", "cnt_nodata"])
+    ensures("bounded", 0 <= cnt_masked(msk, nd, vp, y, c0, k, lo, hi) and cnt_masked(msk, nd, vp, y, c0, k, lo, hi) <= k)
+    ensures("full_implies_all", implies(cnt_masked(msk, nd, vp, y, c0, k, lo, hi) == k,
+                                        all(masked_px(msk, nd, vp, y, c) == 1 for c in range(c0, c0 + k) if lo <= c and c <= hi)))
+    ensures("all_implies_full", implies(all(masked_px(msk, nd, vp, y, c) == 1 for c in range(c0, c0 + k) if lo <= c and c <= hi),
+                                        cnt_masked(msk, nd, vp, y, c0, k, lo, hi) == k))
+
+
+@assumed("pandora.criteria.binary_dilation_msk")
+def _(img, window_size):
+    # scipy.ndimage.binary_dilation of the no-data pixels by a window_size x window_size square (odd sizes): a boolean
+    # array on the image grid.  Only its shape is used by the proofs below; its values are kept symbolic.
+    types(img={"vars": {"msk": "i16[:,:]"}, "attrs": {"no_data_mask": "int", "valid_pixels": "int"}}, window_size="int", result="bool[:,:]")
+    option(pure=True)   # a function of the mask contents and the window size
+    ensures("shape", result.shape[0] == img["msk"].data.shape[0] and result.shape[1] == img["msk"].data.shape[1])
+
+
+@contract("pandora.criteria.allocate_right_mask", props=["C04"])
+def _(cv, img_right, bit_1):
+    types(cv={"vars": {"validity_mask": "i64[:,:]"}, "coords": {"disp": "f64[:]"}, "attrs": {"offset_row_col": "int", "window_size": "int"},
+              "sizes": {"row": "validity_mask.0", "col": "validity_mask.1", "disp": "disp.0"}},
+          img_right={"vars": {"msk": "i16[:,:]"}, "attrs": {"no_data_mask": "int", "valid_pixels": "int"}},
+          bit_1=["where1d"])
+    requires("grid", img_right["msk"].data.shape[0] == cv["validity_mask"].data.shape[0],
+             img_right["msk"].data.shape[1] == cv["validity_mask"].data.shape[1],
+             bit_1[0].mask.shape[0] == cv["validity_mask"].data.shape[1])
+    requires("axis", cv.coords["disp"].data.shape[0] >= 1, isfinite(cv.coords["disp"].data[0]),
+             isfinite(cv.coords["disp"].data[cv.coords["disp"].data.shape[0] - 1]),
+             cv.coords["disp"].data[0] <= cv.coords["disp"].data[cv.coords["disp"].data.shape[0] - 1],
+             # the disparity axis starts and ends on integers (sub-pixel samples lie strictly between them)
+             cv.coords["disp"].data[0] == int(cv.coords["disp"].data[0]),
+             cv.coords["disp"].data[cv.coords["disp"].data.shape[0] - 1] == int(cv.coords["disp"].data[cv.coords["disp"].data.shape[0] - 1]))
+    requires("window_fits", cv.attrs["offset_row_col"] >= 0, 2 * cv.attrs["offset_row_col"] < cv["validity_mask"].data.shape[1])
+    assigns(cv)
+    raises_never()
+    option(fuel=["cnt_masked", "cnt_nodata"], chain_invariants=True, no_fuzz=True)
+    uses("cnt_masked_full", msk=img_right["msk"].data, nd=img_right.attrs["no_data_mask"], vp=img_right.attrs["valid_pixels"])
+    # in terms of the counters: 128 / 2 are ADDED exactly where, outside the bit-1 columns, the counter over the d_max-d_min+1 INTEGER
+    # candidates x+d_min .. x+d_max is full -- whatever the number of sub-pixel samples on the disparity axis
+    ensures("counters", all(
+        cv["validity_mask"].data[y, x] == old(cv["validity_mask"].data)[y, x]
+        + (128 if (not bit_1[0].mask[x]) and cnt_masked(
+            img_right["msk"].data, img_right.attrs["no_data_mask"], img_right.attrs["valid_pixels"], y, x + int(cv.coords["disp"].data[0]),
+            int(cv.coords["disp"].data[cv.coords["disp"].data.shape[0] - 1]) - int(cv.coords["disp"].data[0]) + 1,
+            cv.attrs["offset_row_col"], cv["validity_mask"].data.shape[1] - 1 - cv.attrs["offset_row_col"])
+            == int(cv.coords["disp"].data[cv.coords["disp"].data.shape[0] - 1]) - int(cv.coords["disp"].data[0]) + 1 else 0)
+        + (2 if (not bit_1[0].mask[x]) and cnt_nodata(
+            binary_dilation_msk(img_right, cv.attrs["window_size"]), y, x + int(cv.coords["disp"].data[0]),
+            int(cv.coords["disp"].data[cv.coords["disp"].data.shape[0] - 1]) - int(cv.coords["disp"].data[0]) + 1,
+            cv.attrs["offset_row_col"], cv["validity_mask"].data.shape[1] - 1 - cv.attrs["offset_row_col"])
+            == int(cv.coords["disp"].data[cv.coords["disp"].data.shape[0] - 1]) - int(cv.coords["disp"].data[0]) + 1 else 0)
+        for y in range(cv["validity_mask"].data.shape[0]) for x in range(cv["validity_mask"].data.shape[1])))
+    # C04, bit 7: "every in-image right candidate is masked" (over the global interval, integer candidates x+d)
+    ensures("bit7_iff_all_candidates_masked", all(
+        ((cv["validity_mask"].data[y, x] - old(cv["validity_mask"].data)[y, x]) // 128) % 2 == (
+            1 if (not bit_1[0].mask[x]) and all(
+                masked_px(img_right["msk"].data, img_right.attrs["no_data_mask"], img_right.attrs["valid_pixels"], y, c) == 1
+                for c in range(x + int(cv.coords["disp"].data[0]), x + int(cv.coords["disp"].data[cv.coords["disp"].data.shape[0] - 1]) + 1)
+                if cv.attrs["offset_row_col"] <= c and c <= cv["validity_mask"].data.shape[1] - 1 - cv.attrs["offset_row_col"]) else 0)
+        for y in range(cv["validity_mask"].data.shape[0]) for x in range(cv["validity_mask"].data.shape[1])))
+    invariant(1,
+              all(0 <= b_2_7[y, x] and b_2_7[y, x] <= dsp - d_min and 0 <= no_data_right[y, x] and no_data_right[y, x] <= dsp - d_min
+                  for y in range(cv["validity_mask"].data.shape[0]) for x in range(cv["validity_mask"].data.shape[1])),
+              all(cv["validity_mask"].data[y, x] == old(cv["validity_mask"].data)[y, x]
+                  + (128 if dsp == d_max + 1 and b_2_7[y, x] == d_max - d_min + 1 else 0)
+                  + (2 if dsp == d_max + 1 and no_data_right[y, x] == d_max - d_min + 1 else 0)
+                  for y in range(cv["validity_mask"].data.shape[0]) for x in range(cv["validity_mask"].data.shape[1])),
+              all(b_2_7[y, x] == (0 if bit_1[0].mask[x] and dsp > d_min else cnt_masked(
+                  img_right["msk"].data, img_right.attrs["no_data_mask"], img_right.attrs["valid_pixels"], y, x + d_min, dsp - d_min,
+                  offset, cv["validity_mask"].data.shape[1] - 1 - offset))
+                  for y in range(cv["validity_mask"].data.shape[0]) for x in range(cv["validity_mask"].data.shape[1])),
+              all(no_data_right[y, x] == (0 if bit_1[0].mask[x] and dsp > d_min else cnt_nodata(
+                  dil, y, x + d_min, dsp - d_min, offset, cv["validity_mask"].data.shape[1] - 1 - offset))
+                  for y in range(cv["validity_mask"].data.shape[0]) for x in range(cv["validity_mask"].data.shape[1])))
+
+
+@contract("pandora.criteria.allocate_left_mask", props=["C04"])
+def _(cv, img_left):
+    types(cv={"vars": {"validity_mask": "i64[:,:]"}, "attrs": {"window_size": "int"}},
+          img_left={"vars": {"msk": "i16[:,:]"}, "attrs": {"no_data_mask": "int", "valid_pixels": "int"}})
+    requires("grid", img_left["msk"].data.shape[0] == cv["validity_mask"].data.shape[0],
+             img_left["msk"].data.shape[1] == cv["validity_mask"].data.shape[1])
+    assigns(cv)
+    raises_never()
+    option(no_fuzz=True)
+    # bit 0 (1) is ADDED where the dilated no-data map of the left image holds, bit 6 (64) where the left input mask invalidates
+    # the pixel (neither no-data nor valid); nothing else changes
+    ensures("bit0_and_bit6", all(
+        cv["validity_mask"].data[y, x] == old(cv["validity_mask"].data)[y, x]
+        + (1 if binary_dilation_msk(img_left, cv.attrs["window_size"])[y, x] else 0)
+        + (64 if masked_px(img_left["msk"].data, img_left.attrs["no_data_mask"], img_left.attrs["valid_pixels"], y, x) == 1 else 0)
+        for y in range(cv["validity_mask"].data.shape[0]) for x in range(cv["validity_mask"].data.shape[1])))
